@@ -367,3 +367,18 @@ Proof.
         intros ->. now rewrite bytes_eqb_refl in E.
     + inversion U; subst qs'. rewrite R2. reflexivity.
 Qed.
+
+(** a write through one map key leaves every other key of that map alone, textually *)
+Lemma traverse_null keys : traverse Null keys = Null.
+Proof. destruct keys as [|k ks]; [reflexivity|]. cbn. destruct (is_list_ref k); reflexivity. Qed.
+
+Theorem write_frame_other_key t k ks v k' qs :
+  k <> [] -> is_list_ref k = false -> is_list_ref k' = false -> k' <> k ->
+  write_ok t (k :: ks) = true ->
+  traverse (write_at t (k :: ks) v) (k' :: qs) = traverse t (k' :: qs).
+Proof.
+  intros NE LR LR' D OK. cbn [write_at write_ok traverse] in *.
+  replace (is_empty k) with false in * by (destruct k; [congruence|reflexivity]).
+  rewrite LR in *. rewrite LR'. rewrite map_get_set_other by exact D.
+  destruct t; try discriminate OK; cbn [map_get]; [now rewrite traverse_null|reflexivity].
+Qed.
